@@ -59,6 +59,7 @@ def run(ctx):
     r19_5(ctx, rep, roles, meths)
     from .. import wrappers
     wrappers.transient_errors(ctx, rep, roles, "C19", "R19.6")
+    r19_7(ctx, rep)
 
 
 def call_names(row):
@@ -311,3 +312,70 @@ def r19_5(ctx, rep, roles, meths):
     counts = {("failure_detector::FailureDetector", "call:add"): 2, ("transport::channel::ChannelTransport", "call:unwrap"): 8,
               ("transport::channel", "call:unwrap"): 2}
     c09.r09_inventory(ctx, rep, roles, P="C19", ent=ent, rule_id="R19.5", extra_table=extra, extra_counts=counts)
+
+
+def _mutborrowed_fields(block):
+    """(local, adt, field) for every `&mut place.field` taken in the block, following one re-borrow"""
+    out = {}
+    for st in block["stmts"]:
+        if st.get("k") != "assign" or st["rv"].get("k") != "ref" or not st["rv"].get("mut"):
+            continue
+        pl = st["rv"]["place"]
+        fs = [p for p in pl["proj"] if p.get("k") == "field" and p.get("adt") not in (None, "<closure>")]
+        if fs:
+            out[st["place"]["local"]] = (fs[-1]["adt"], fs[-1]["name"])
+        elif pl["proj"] == [{"k": "deref"}] and pl["local"] in out:
+            out[st["place"]["local"]] = out[pl["local"]]
+    return out
+
+
+def r19_7(ctx, rep):
+    r = rep.rule("R19.7", "scratch-buffer discipline: a message serialised into a buffer that outlives the call (a field) is preceded, on "
+                          "every path, by clearing that buffer in the same call — a failed send must not leave bytes for the next one")
+    from ..core import cfg as cfgmod
+    fx = ctx.fx
+    n = 0
+    for f in fx.fns.values():
+        blocks = f.get("blocks") or []
+        sers, clears = [], []
+        for bi, b in enumerate(blocks):
+            t = b.get("term") or {}
+            if t.get("k") != "call" or b.get("cleanup"):
+                continue
+            c = cfgmod.term_callee(t)
+            if c is None:
+                continue
+            raw = c[1] or c[0]
+            name = sym.strip_all_generics(raw)
+            mb = _mutborrowed_fields(b)
+            argl = [a["place"]["local"] for a in t.get("args", []) if a.get("k") in ("move", "copy") and not a["place"]["proj"]]
+            hit = [mb[l] for l in argl if l in mb]
+            if not hit:
+                continue
+            if raw.endswith("Serializable>::serialize") and raw.startswith("<message::ChitchatMessage as "):
+                sers.append((bi, hit[0]))     # a whole datagram
+            elif name.split("::")[-1] in ("clear",) or (name.split("::")[-1] == "truncate"):
+                clears.append((bi, hit[0]))
+        if not sers:
+            continue
+        g = cfgmod.CFG(f)
+        for bi, fld in sers:
+            n += 1
+            ok = any(cf == fld and g.dominates(cb, bi) for cb, cf in clears)
+            rep.obligation(ok, "C19/R19.7/stale-scratch-buffer/%s.%s" % (fld[0].split("::")[-1], fld[1]),
+                           "%s serialises a message into the persistent buffer %s.%s without clearing it first on every path: after a failed send the next datagram "
+                           "starts with the previous message" % (f["id"], fld[0], fld[1]), where(f, blocks[bi]["term"]["span"]["line"]),
+                           sample="%s: clear(%s) dominates serialize(.., %s)" % (fx.root_fn(f["id"]).split("::")[-1], fld[1], fld[1]))
+    # positive control: the UDP send path serialises a message somewhere (into a field or a fresh vector)
+    udp_send = [f for f in fx.fns.values() if f["id"].startswith("<transport::udp::UdpSocket as transport::Socket>::send")]
+    found = 0
+    for f in udp_send:
+        for b in f.get("blocks") or []:
+            t = b.get("term") or {}
+            c = cfgmod.term_callee(t) if t.get("k") == "call" else None
+            if c and "serialize::Serializable" in (c[1] or c[0]) and "::serialize" in (c[1] or c[0]):
+                found += 1
+    rep.obligation(found >= 1, "C19/R19.7/anchor-lost/udp-send", "no serialisation of the outgoing message found in UdpSocket::send", None,
+                   sample="UdpSocket::send serialises the message (%d call)" % found)
+    rep.count("persistent-scratch-buffers", n)
+    rep.instance(n + found)
